@@ -81,10 +81,23 @@ def weave_units(ws, unit_names):
             if e.probe_group:
                 groups.setdefault(e.probe_group, []).append(e)
         skipped = {g for g, es in groups.items() if not all(ws.anchor_ok(e) for e in es)}
+        # a probe group whose statement anchors are lost (locals renamed, loop restructured) may have a
+        # pattern-based alternative that anchors on the shared-memory access expressions themselves
+        alt_used = {}
+        for g in sorted(skipped):
+            alt = (unit.get("probe_alt") or {}).get(g)
+            if alt and all(ws.anchor_ok(e) for e in alt):
+                alt_used[g] = alt
+        skipped -= set(alt_used)
         for e in unit.get("edits", []):
-            if e.probe_group in skipped:
+            if e.probe_group in skipped or e.probe_group in alt_used:
                 continue
             ws.apply(e)
+        for g, alt in alt_used.items():
+            ws.weave_log.append({"action": "probe group woven through its pattern-based alternative", "group": g,
+                                 "why": "a statement anchor of the group is not found in the current source"})
+            for e in alt:
+                ws.apply(e)
         for g in skipped:
             lost = [e.anchor.strip() for e in groups[g] if not ws.anchor_ok(e)]
             ws.skipped_probe_groups[g] = lost
